@@ -157,4 +157,18 @@ Fixpoint mrecv_all (rc : rcfg) (net : list (addr * packet)) : list (addr * msg) 
   | (a, p) :: net' => mrecv_packet rc a p ++ mrecv_all rc net'
   end.
 
+(* the read loop of DoInputImplementation(receiver, maxBytes): as for the big tunnel *)
+Fixpoint mrecv_loop (rc : rcfg) (maxBytes total : N) (queue : list (addr * packet))
+  : list (addr * msg) * list (addr * packet) :=
+  match queue with
+  | [] => ([], [])
+  | (a, p) :: q' =>
+      if total <? maxBytes then
+        let bs := takeN (rc_mtu rc) p in
+        if lenN bs =? 0 then ([], q')
+        else
+          let '(o2, rest) := mrecv_loop rc maxBytes (total + lenN bs) q' in (mrecv_packet rc a p ++ o2, rest)
+      else ([], queue)
+  end.
+
 End Mini.
